@@ -60,6 +60,7 @@ type FuncSpec struct {
 	Ensures2  []*Clause // relational (two-run) postconditions; names with suffix _2 denote the second run
 	Elems     []*ElemSpec // per-element facts of a returned channel (instantiated at each receive)
 	Lets      []*LetSpec  // let NAME = expr : abbreviations evaluated in the entry (pre-call) state
+	Releases  []string    // parameters (pooled objects) whose ownership the function gives up
 }
 
 type LetSpec struct {
@@ -316,6 +317,8 @@ func (fs *FuncSpec) addClause(t, file string, ln int) error {
 			return err
 		}
 		fs.Ensures2 = append(fs.Ensures2, c)
+	case "releases":
+		fs.Releases = append(fs.Releases, strings.Fields(rest)...)
 	case "let":
 		i := strings.Index(rest, "=")
 		if i < 0 {
